@@ -37,24 +37,32 @@ Definition eCancel := 99. Definition eCastFail := 102. Definition eResolve := 11
 Definition eCap := 67. Definition eLimit := 76. Definition eToken := 116.
 Definition fNone := 110. Definition fLogs := 108. Definition fHdr := 104. Definition fExtOut := 101.
 Definition fExtIn := 105. Definition fShm := 115. Definition fCast := 99. Definition fExtCast := 106.
+(* external input pointers whose fetched payload has a particular shape *)
+Definition fTail := 97.      (* a: end-of-stream marker cut to 1-3 bytes after a complete batch *)
+Definition fTwoStreams := 98. (* b: a schema message where a batch belongs (two streams, no EOS between) *)
+Definition fMulti := 100.    (* d: log batch + two data batches, the last one wins *)
+Definition fRedirect := 103. (* g: failing pointer serves data batch + location pointer (redirect loop) *)
+Definition fNoData := 121.   (* y: failing pointer serves a log batch only *)
 
 Definition transports : list N := [tP; tH].
 Definition kinds : list N := [kU; kV; kR; kX].
 Definition exits : list N :=
   [eOk; eUnk; eBad; eVer; eErr; ePanic; eNil; eTErr; eTPanic; eNoEmit; eDouble; eCancel;
    eCastFail; eResolve; eWrite; eCap; eLimit; eToken].
-Definition features : list N := [fNone; fLogs; fHdr; fExtOut; fExtIn; fShm; fCast; fExtCast].
+Definition features : list N :=
+  [fNone; fLogs; fHdr; fExtOut; fExtIn; fShm; fCast; fExtCast; fTail; fTwoStreams; fMulti; fRedirect; fNoData].
 
 Definition mem (x : N) (l : list N) : bool := existsb (N.eqb x) l.
 Definition is_stream (k : N) : bool := (k =? kR) || (k =? kX).
-Definition ext_in (f : N) : bool := (f =? fExtIn) || (f =? fExtCast).
+Definition ext_in (f : N) : bool :=
+  mem f [fExtIn; fExtCast; fTail; fTwoStreams; fMulti; fRedirect; fNoData].
 
 (* mirrors vgirpc.VerifC41Valid *)
 Definition valid_feature (t k f : N) : bool :=
   if (f =? fNone) || (f =? fLogs) then true
   else if f =? fHdr then is_stream k
   else if f =? fExtOut then negb (k =? kV)
-  else if f =? fExtIn then (t =? tH) || (k =? kX)
+  else if mem f [fExtIn; fTail; fTwoStreams; fMulti; fRedirect; fNoData] then (t =? tH) || (k =? kX)
   else if f =? fShm then t =? tP
   else if (f =? fCast) || (f =? fExtCast) then k =? kX
   else false.
@@ -69,8 +77,10 @@ Definition valid_exit (t k e f : N) : bool :=
   else if e =? eToken then (t =? tH) && is_stream k
   else false.
 
+(* the two late-refusal payloads only make sense on the resolve-failure exit *)
 Definition valid (t k e f : N) : bool :=
-  mem t transports && mem k kinds && valid_feature t k f && valid_exit t k e f.
+  mem t transports && mem k kinds && valid_feature t k f && valid_exit t k e f
+  && (negb (mem f [fRedirect; fNoData]) || (e =? eResolve)).
 
 Definition class := (N * N * N * N)%type.
 Definition all_classes : list class :=
@@ -83,6 +93,7 @@ Inductive obj :=
 | REQ   (* request batch read by ReadRequest (ipc reader: untracked allocator) *)
 | RD    (* the input reader's current record (untracked) *)
 | IN    (* batch materialised by ResolveExternalLocation (tracked: defaultAllocator) *)
+| INP   (* an earlier batch of the fetched payload: log batch, superseded data batch (tracked) *)
 | INS   (* batch materialised by ResolveShmBatch (untracked) *)
 | CAST  (* result of castRecordBatch (tracked) *)
 | OUT   (* data batch built by EmitMap and owned by the collector (tracked) *)
@@ -102,7 +113,7 @@ Definition oid (o : obj) : N :=
   match o with
   | REQ => 0 | RD => 1 | IN => 2 | INS => 3 | CAST => 4 | OUT => 5 | OUT2 => 6 | BAD => 7
   | LOG => 8 | LOG2 => 9 | WRAP => 10 | PTR => 11 | ERR => 12 | LOGW => 13 | TOK => 14
-  | RES => 15 | HDR => 16
+  | RES => 15 | HDR => 16 | INP => 17
   end.
 Definition obj_eqb (a b : obj) : bool := oid a =? oid b.
 
@@ -167,6 +178,31 @@ Definition write_err := tmp ERR.
 Definition write_log := tmp LOGW.
 Definition write_tok := tmp TOK.
 Definition release_all (os : list obj) : list event := map Release os.
+
+(* external.go ResolveExternalLocation on a payload that resolves.  The reader
+   owns its current record until the next Next(); the loop retains a data batch
+   into resolvedBatch and releases the one it supersedes; the deferred
+   reader.Release drops the reader's reference on the last record.  A payload
+   whose tail is damaged AFTER a complete batch (fTail, fTwoStreams) ends the
+   loop with reader.Err() set, which the code does not consult: the batch
+   decoded so far is the result. *)
+Definition resolve_ok (f : N) : list event :=
+  when (f =? fMulti)
+    ([Alloc INP; Release INP]                 (* log batch: skipped *)
+     ++ [Alloc INP; Retain INP; Release INP])  (* decoy: retained, reader moves on *)
+  ++ [Alloc IN; Retain IN]
+  ++ when (f =? fMulti) [Release INP]          (* superseded batch released *)
+  ++ [Release IN].                             (* reader.Release *)
+
+(* ... on a payload that is refused after something was decoded *)
+Definition resolve_fail (f : N) : list event :=
+  if f =? fRedirect then
+    [Alloc INP; Retain INP; Release INP]   (* data batch retained, reader moves on *)
+    ++ [Alloc IN]                          (* the location-pointer record *)
+    ++ [Release INP]                       (* redirect loop: resolvedBatch released *)
+    ++ [Release IN]                        (* reader.Release *)
+  else if f =? fNoData then [Alloc INP; Release INP]
+  else [].
 
 (* wire.go castRecordBatch: compute.NewDatum(srcCol) retains the source column;
    since a3f8652 srcDatum.Release() follows CastDatum on success and failure
@@ -241,9 +277,9 @@ Definition turn (v : variant) (t k e f : N) (last : bool) : list event :=
       let res_fail := (ex =? eResolve) in
       let '(res_ev, src, owned) :=
         if f =? fShm then ([Alloc INS], INS, [INS])
-        else if ext_in f then ([Alloc IN], IN, [IN])
+        else if ext_in f then (resolve_ok f, IN, [IN])
         else ([], RD, []) in
-      if res_fail then [Alloc RD] ++ write_err ++ [Release RD]
+      if res_fail then [Alloc RD] ++ resolve_fail f ++ write_err ++ [Release RD]
       else
         let do_cast := (f =? fCast) || (f =? fExtCast) in
         if ex =? eCastFail then
@@ -272,9 +308,10 @@ Definition outer (v : variant) (t k e f : N) : list event :=
   else
     let '(req_ev, reqo) :=
       if (t =? tP) && (f =? fShm) && negb (is_stream k) then ([Alloc REQ; Alloc INS; Release REQ], INS)
-      else if (t =? tH) && ext_in f then ([Alloc REQ; Alloc IN; Release REQ], IN)
+      else if (t =? tH) && ext_in f then ([Alloc REQ] ++ resolve_ok f ++ [Release REQ], IN)
       else ([Alloc REQ], REQ) in
-    if req_resolve_fails t k e f then [Alloc REQ] ++ write_err ++ [Release REQ]
+    if req_resolve_fails t k e f then
+      [Alloc REQ] ++ when ((t =? tH) && ext_in f) (resolve_fail f) ++ write_err ++ [Release REQ]
     else
       let ilogs := when (f =? fLogs) (write_log ++ write_log) in
       let body :=
